@@ -51,6 +51,9 @@ def genC15 (tier : Tier) (seed : Nat) (o : Out) : IO Unit := do
     [[0, 1], [1, 0]] "rejected")
   o.line (permCase "key-clash-unused" "-"
     ["module A\ncustom B\n", "module A::B::C\nstruct X {}\n", "module A::B\nstruct Y {}\n"] (permsOf [0, 1, 2]) "rejected")
+  -- a member sharing its key with a nested module of another file (D-15b, repaired: the container clashes with the enclosing module)
+  o.line (permCase "d15b-member-module-clash" "-"
+    ["module A\n/// See {@link S::T}\nstruct S { T: int32 }\n", "module A::S::T\nstruct X {}\n"] [[0, 1], [1, 0]] "rejected")
   -- conditional compilation must not leak between files: a symbol defined (or undefined) in one file, tested in another
   for (opts, verdict, files) in
       [("-", "accepted", ["#define WITH\nmodule D\nstruct C {}\n", "module D\n#if WITH\nstruct A {}\n#endif\nstruct R {}\n"]),
